@@ -466,18 +466,26 @@ theorem build_strip_ne_nilPtr : ∀ (x : TRef) (k : Kind), x.build.strip ≠ .ni
 theorem dirArgTypes_built : ∀ t ∈ dirArgTypes cfg, ∃ x : TRef, t = x.build := by
   intro t ht
   unfold dirArgTypes at ht
-  split at ht
-  · simp only [List.mem_cons, List.not_mem_nil, or_false] at ht
-    rcases ht with rfl | rfl | rfl
-    · exact ⟨.nonNull (.ref idBoolean), rfl⟩
-    · exact ⟨.nonNull (.ref idBoolean), rfl⟩
-    · exact ⟨.ref idString, rfl⟩
-  · rw [List.mem_flatMap] at ht
-    obtain ⟨d, _, htd⟩ := ht
+  rw [List.mem_flatMap] at ht
+  obtain ⟨dd, hdd, htd⟩ := ht
+  unfold dirDefs at hdd
+  split at hdd
+  · simp only [List.mem_cons, List.not_mem_nil, or_false] at hdd
+    rcases hdd with rfl | rfl | rfl
+    · simp only [List.map_cons, List.map_nil, List.mem_singleton] at htd
+      exact ⟨.nonNull (.ref idBoolean), by rw [htd]; rfl⟩
+    · simp only [List.map_cons, List.map_nil, List.mem_singleton] at htd
+      exact ⟨.nonNull (.ref idBoolean), by rw [htd]; rfl⟩
+    · simp only [List.map_cons, List.map_nil, List.mem_singleton] at htd
+      exact ⟨.ref idString, by rw [htd]; rfl⟩
+  · rw [List.mem_filterMap] at hdd
+    obtain ⟨d, _, hde'⟩ := hdd
     cases d with
-    | none => cases htd
+    | none => cases hde'
     | some d =>
-      simp only [List.mem_map] at htd
+      simp only [Option.some.injEq] at hde'
+      subst hde'
+      simp only [List.map_map, List.mem_map, Function.comp] at htd
       obtain ⟨a, _, rfl⟩ := htd
       exact ⟨a.type, rfl⟩
 
